@@ -121,85 +121,73 @@ pub struct DiffMismatch {
 
 pub fn output_diff_json(old: &str, new: &str) -> Option<Vec<DiffMismatch>> {
     let text_diff = TextDiff::from_lines(old, new);
-    let grouped_ops = text_diff.grouped_ops(0);
 
-    if grouped_ops.is_empty() {
+    if text_diff.grouped_ops(0).is_empty() {
         return None;
     }
 
-    let mut mismatches = Vec::with_capacity(grouped_ops.len());
+    let mut mismatches = Vec::new();
 
-    for group in grouped_ops {
-        for op in group {
-            match op {
-                DiffOp::Replace {
-                    old_index,
-                    old_len,
-                    new_index,
-                    new_len,
-                } => {
-                    let original = text_diff
-                        .iter_changes(&op)
-                        .filter(|change| matches!(change.tag(), ChangeTag::Delete))
-                        .map(|change| change.value())
-                        .collect();
+    // The indices stored in the ops can be stale after the diff has been compacted (an insertion
+    // moved across an equal run), so we track the positions ourselves: the order and the lengths
+    // of the ops are always right
+    let mut old_index = 0;
+    let mut new_index = 0;
 
-                    let expected = text_diff
-                        .iter_changes(&op)
-                        .filter(|change| matches!(change.tag(), ChangeTag::Insert))
-                        .map(|change| change.value())
-                        .collect();
+    for op in text_diff.ops() {
+        let original: String = text_diff
+            .iter_changes(op)
+            .filter(|change| matches!(change.tag(), ChangeTag::Delete))
+            .map(|change| change.value())
+            .collect();
 
-                    mismatches.push(DiffMismatch {
-                        original_start_line: old_index,
-                        original_end_line: old_index + old_len - 1,
-                        expected_start_line: new_index,
-                        expected_end_line: new_index + new_len - 1,
-                        original,
-                        expected,
-                    });
-                }
-                DiffOp::Delete {
-                    old_index,
-                    old_len,
-                    new_index,
-                } => {
-                    // All the deleted lines, not only the first one
-                    let actual: String = text_diff
-                        .iter_changes(&op)
-                        .map(|change| change.value())
-                        .collect();
+        let expected: String = text_diff
+            .iter_changes(op)
+            .filter(|change| matches!(change.tag(), ChangeTag::Insert))
+            .map(|change| change.value())
+            .collect();
 
-                    mismatches.push(DiffMismatch {
-                        original_start_line: old_index,
-                        original_end_line: old_index + old_len - 1,
-                        expected_start_line: new_index,
-                        expected_end_line: new_index,
-                        original: actual,
-                        expected: "".to_string(),
-                    })
-                }
-                DiffOp::Insert {
-                    old_index,
-                    new_index,
-                    new_len,
-                } => {
-                    // All the inserted lines, not only the first one
-                    let expected: String = text_diff
-                        .iter_changes(&op)
-                        .map(|change| change.value())
-                        .collect();
-
-                    mismatches.push(DiffMismatch {
-                        original_start_line: old_index,
-                        original_end_line: old_index,
-                        expected_start_line: new_index,
-                        expected_end_line: new_index + new_len - 1,
-                        original: "".to_string(),
-                        expected,
-                    })
-                }
-                DiffOp::Equal { .. } => (), // Don't record an equals diff, its unnecessary
+        match *op {
+            DiffOp::Replace {
+                old_len, new_len, ..
+            } => {
+                mismatches.push(DiffMismatch {
+                    original_start_line: old_index,
+                    original_end_line: old_index + old_len - 1,
+                    expected_start_line: new_index,
+                    expected_end_line: new_index + new_len - 1,
+                    original,
+                    expected,
+                });
+                old_index += old_len;
+                new_index += new_len;
+            }
+            DiffOp::Delete { old_len, .. } => {
+                mismatches.push(DiffMismatch {
+                    original_start_line: old_index,
+                    original_end_line: old_index + old_len - 1,
+                    expected_start_line: new_index,
+                    expected_end_line: new_index,
+                    original,
+                    expected: "".to_string(),
+                });
+                old_index += old_len;
+            }
+            DiffOp::Insert { new_len, .. } => {
+                mismatches.push(DiffMismatch {
+                    original_start_line: old_index,
+                    original_end_line: old_index,
+                    expected_start_line: new_index,
+                    expected_end_line: new_index + new_len - 1,
+                    original: "".to_string(),
+                    expected,
+                });
+                new_index += new_len;
+            }
+            // Don't record an equals diff, its unnecessary
+            DiffOp::Equal { len, .. } => {
+                old_index += len;
+                new_index += len;
             }
         }
     }
